@@ -1107,7 +1107,7 @@ func (m *LinearBlockMetadata) populateAllocationRequestUpper(
 
 	// Check next suballocations from second vector for BufferImageGranularity conflicts. Increase alignment if
 	// necessary
-	if m.allocationGranularity > 1 && m.allocationGranularity != int(allocAlignment) && len(secondVector) > 0 {
+	if m.allocationGranularity > 1 && len(secondVector) > 0 {
 		var bufferImageGranularityConflict bool
 		for nextSuballocIndex := len(secondVector) - 1; nextSuballocIndex >= 0; nextSuballocIndex-- {
 			nextSuballoc := secondVector[nextSuballocIndex]
@@ -1125,11 +1125,12 @@ func (m *LinearBlockMetadata) populateAllocationRequestUpper(
 		}
 
 		if bufferImageGranularityConflict {
-			// We can't just align down the offset, we have to align down the last byte in the allocation
+			// We can't just align down the offset, the whole allocation has to end before the page
+			// it shares with the conflicting allocation begins
 			endOffset := resultOffset + allocSize - 1
 			alignedEndOffset := memutils.AlignDown(endOffset, uint(m.allocationGranularity))
-			alignedDiff := endOffset - alignedEndOffset
-			resultOffset = memutils.AlignDown(resultOffset-alignedDiff, uint(m.allocationGranularity))
+			resultOffset = memutils.AlignDown(alignedEndOffset-allocSize, uint(m.allocationGranularity))
+			resultOffset = memutils.AlignDown(resultOffset, allocAlignment)
 		}
 	}
 
